@@ -14,6 +14,7 @@ from __future__ import annotations
 
 import json
 import os
+import re
 import uuid
 
 import numpy as np
@@ -28,14 +29,33 @@ def _floats(tokens):
     return np.array([np.nan if t == NDV else float(t) for t in tokens], dtype=float)
 
 
+_LABEL = re.compile(r"^(?:s|longer-label-|t)(\d+)$")
+
+
+def _texts(tokens):
+    """Value tokens -> TEXT labels of different lengths: write version 1 short, version 2 long, "" = no data."""
+    out = []
+    for t in tokens:
+        if t == NDV:
+            out.append("")
+        else:
+            out.append({1: "s", 2: "longer-label-"}.get((t // 10) % 10, "t") + str(t))
+    return np.array(out, dtype=str) if out else np.array([], dtype="<U1")
+
+
 def _tokens(values, raw=False):
-    """Values -> tokens.  API reads: nan is the no-data token.  Raw file reads: FLOAT_NDV is."""
+    """Values -> tokens.  API reads: nan / "" is the no-data token.  Raw file reads: FLOAT_NDV / "" is."""
     if values is None:
         return None
     out = []
     for v in np.asarray(values).ravel().tolist():
+        if isinstance(v, bytes):
+            v = v.decode("utf-8", "replace")
         if v is None:
             out.append(NDV)
+        elif isinstance(v, str):
+            m = _LABEL.match(v)
+            out.append(NDV if v == "" else int(m.group(1)) if m else v)
         elif isinstance(v, float) and np.isnan(v):
             out.append("nan-in-file" if raw else NDV)
         elif raw and isinstance(v, float) and abs(v - FLOAT_NDV) < 1e-40:
@@ -58,7 +78,7 @@ def outcome_of(exc):
 class Scene:
     """One drillhole group in one file; `ids` maps specification ids to real uids and back."""
 
-    def __init__(self, directory, version=21, tag="c04"):
+    def __init__(self, directory, version=21, tag="c04", kind="float", plain_child=False):
         from geoh5py import Workspace
         from geoh5py.groups import DrillholeGroup
         self.version = version
@@ -66,6 +86,9 @@ class Scene:
         self.ws = Workspace.create(self.path, version={20: 2.0, 21: 2.1}[version])
         self.group = DrillholeGroup.create(self.ws, name="G")
         self.group_uid = self.group.uid
+        self.kind = kind  # primitive type of the payload data: "float" | "text"
+        if plain_child:  # a non-concatenated child next to the holes (Concatenator.copy treats it separately)
+            self.group.add_comment("a plain child of the drillhole group")
         self.hole_uid = {}  # slot -> uid
         self.holes = {}  # slot -> live python object
         self.data_sid = {}  # braced uid string -> specification id (int) of a data set
@@ -123,8 +146,13 @@ class Scene:
         self.holes[h] = hole
         self.hole_uid[h] = hole.uid
 
+    def _payload(self, tokens):
+        return _texts(tokens) if self.kind == "text" else _floats(tokens)
+
     def _add_table_data(self, h, name, kind, assoc, vals, new=None, **_):
-        spec = {"values": _floats(vals)}
+        spec = {"values": self._payload(vals)}
+        if self.kind == "text":
+            spec["type"] = "TEXT"
         if kind == "D":
             spec["depth"] = _floats(assoc[0])
         else:
@@ -145,10 +173,13 @@ class Scene:
     _AddIntervalData = _add_table_data
 
     def _SetValues(self, h, name, vals, **_):
-        self._first_data(h, name).values = _floats(vals)
+        self._first_data(h, name).values = self._payload(vals)
 
     def _Rename(self, h, name, new, **_):
         self._first_data(h, name).name = new
+
+    def _Protect(self, h, name="", **_):
+        (self.hole(h) if name == "" else self._first_data(h, name)).allow_delete = False
 
     def _RemoveDataViaWorkspace(self, h, name, **_):
         self.ws.remove_entity(self._first_data(h, name))
@@ -157,12 +188,12 @@ class Scene:
         self.hole(h).remove_children([self._first_data(h, name)])
 
     def _RemoveHoleViaWorkspace(self, h, **_):
-        hole = self.holes.pop(h)  # a removed hole is never touched again by the harness
-        self.ws.remove_entity(hole)
+        self.ws.remove_entity(self.holes[h])
+        self.holes.pop(h)  # a removed hole is never touched again by the harness (a refused removal keeps it)
 
     def _RemoveHoleViaParent(self, h, **_):
-        hole = self.holes.pop(h)
-        self.group.remove_children([hole])
+        self.group.remove_children([self.holes[h]])
+        self.holes.pop(h)
 
     def _RemovePropertyGroup(self, h, pg, via, **_):
         found = self.hole(h).get_property_group(pg)
@@ -175,7 +206,7 @@ class Scene:
 
     def _AddValuesToTable(self, pg, name, vals, new=None, **_):
         try:
-            self.group.drillholes_tables[pg].add_values_to_property_group(name, _floats(vals))
+            self.group.drillholes_tables[pg].add_values_to_property_group(name, self._payload(vals))
         finally:
             for item in new or []:
                 if item["h"] in self.holes:
@@ -222,7 +253,7 @@ class Scene:
         out = {}
         holes = self.holes if holes is None else holes
         for h, hole in sorted(holes.items()):
-            rec = {"names": None, "values": {}, "pgs": {}, "children": None}
+            rec = {"names": None, "values": {}, "pgs": {}, "children": None, "ad": bool(hole.allow_delete), "data_ad": {}}
             try:
                 names = list(hole.get_data_list())
             except Exception as exc:  # pylint: disable=broad-except
@@ -237,6 +268,7 @@ class Scene:
                         rec["values"][name] = "missing"
                     else:
                         rec["values"][name] = _tokens(found[0].values)
+                        rec["data_ad"][name] = bool(found[0].allow_delete)
                         if len(found) > 1:
                             rec["values"][name] = {"several": [_tokens(d.values) for d in found]}
                 except Exception as exc:  # pylint: disable=broad-except
